@@ -371,6 +371,9 @@ def run(prop, tier):
             ml = [int(x) for x in mo.split()]
         except ValueError:
             ml = [mo]
+        if ml != io and corr.parse_differs(s, 0 if st else 1):
+            r.count('skipped:parse-differs')
+            continue
         if ml != io:
             k = first_diff(ml, io)
             r.fail(Failure(prop, 'K-view', s,
